@@ -93,6 +93,9 @@ def code(o):
 def run(ck, binary, run_impl, replay):
     rng = ck.rng
     quick = ck.tier == "quick"
+    # every 1- and 2-byte input: the three decoders on every run, the four encoders too in the thorough tier
+    # (the quick tier gives the encoders every byte value in fixed contexts, boundary lengths and seeded strings)
+    EXH_FNS = [f for f in FNS if f not in ENCODERS] if quick else list(FNS)
     cases = []
     hashes = []
     exh = []
@@ -137,7 +140,7 @@ def run(ck, binary, run_impl, replay):
             for x in (b"%" + bytes([b]) + b"0", b"%4" + bytes([b]), b"QUJ" + bytes([b]), b"QQ=" + bytes([b])):
                 for fn in ("urldecode", "rawurldecode", "base64_decode"):
                     cases.append({"k": "bytes", "f": fn, "hex": x.hex(), "_orig": None, "_origin": "ctx"})
-        for fn in FNS:
+        for fn in EXH_FNS:
             for b in exh_inputs():
                 exh.append({"k": "bytes", "f": fn, "hex": b.hex()})
         # hashes: harness-only comparison with crypto/* (no model: pure delegation)
@@ -199,7 +202,7 @@ def run(ck, binary, run_impl, replay):
     if exh:
         nper = len(exh_inputs())
         codes_list = []
-        for k, fn in enumerate(FNS):
+        for k, fn in enumerate(EXH_FNS):
             sub_c = exh[k * nper:(k + 1) * nper]
             sub_o = o_exh[k * nper:(k + 1) * nper]
             codes = []
@@ -217,8 +220,8 @@ def run(ck, binary, run_impl, replay):
                     ck.violation("bytes:%s:clauses=2" % fn, {"part": NAME, "case": c, "impl_out": o, "clause": CLAUSES[2]})
                 codes.append(code(o))
             codes_list.append(codes)
-        fails = exh_eval(ck, "bytes_exh", HEADER, ["(bytes_exh %d)" % k for k in range(len(FNS))], codes_list)
-        for k, fn in enumerate(FNS):
+        fails = exh_eval(ck, "bytes_exh", HEADER, ["(bytes_exh %d)" % FNS.index(fn) for fn in EXH_FNS], codes_list)
+        for k, fn in enumerate(EXH_FNS):
             for i in fails[k][:5]:
                 ck.violation("bytes:%s:clauses=1" % fn, {"part": NAME, "case": exh[k * nper + i], "impl_out": o_exh[k * nper + i],
                                                          "clause": CLAUSES[1]})
